@@ -56,6 +56,19 @@ type wireWalker struct {
 	params   map[types.Object]string
 	prog     *WireProg
 	side     string
+	renames  map[string]string // local filled from the coder, later stored whole into a path
+}
+
+func renameOps(ops []Op, ren map[string]string) {
+	if len(ren) == 0 {
+		return
+	}
+	for i := range ops {
+		if to, ok := ren[ops[i].Path]; ok {
+			ops[i].Path = to
+		}
+		renameOps(ops[i].Sub, ren)
+	}
 }
 
 func isCoderType(t types.Type, which string) bool {
@@ -240,6 +253,7 @@ func extractFunc(p *Program, pkg *packages.Package, fd *ast.FuncDecl, obj *types
 		}
 	}
 	wp.Ops = w.stmts(fd.Body.List)
+	renameOps(wp.Ops, w.renames)
 	w.fieldUse(fd.Body)
 	return wp
 }
@@ -494,6 +508,17 @@ func (w *wireWalker) stmt(s ast.Stmt) []Op {
 					continue
 				}
 				if !w.involvesCoder(s.Rhs[i]) {
+					// x.F = local: the local's coder ops fill x.F
+					if id, ok := stripParens(s.Rhs[i]).(*ast.Ident); ok {
+						if _, plain := s.Lhs[i].(*ast.Ident); !plain {
+							if lp := w.pathOf(id); strings.HasPrefix(lp, "$") {
+								if w.renames == nil {
+									w.renames = map[string]string{}
+								}
+								w.renames[lp] = w.pathOf(s.Lhs[i])
+							}
+						}
+					}
 					continue
 				}
 				ops = append(ops, w.expr(s.Rhs[i], w.pathOf(s.Lhs[i]))...)
@@ -1007,6 +1032,15 @@ func (w *wireWalker) call(c *ast.CallExpr, lhs string) []Op {
 	// nested coder ops inside arguments come first (evaluation order), except for the coder arg itself
 	callee := typeutil.Callee(w.info, c)
 	fn, _ := callee.(*types.Func)
+
+	// io.ReadAll(io.LimitReader(coder, n)): a raw read of at most n bytes into the result
+	if fn != nil && fn.Pkg() != nil && fn.Pkg().Path() == "io" && fn.Name() == "ReadAll" && len(c.Args) == 1 {
+		if in, ok := stripParens(c.Args[0]).(*ast.CallExpr); ok && len(in.Args) == 2 && isCoderExpr(w, in.Args[0]) {
+			if f2, _ := typeutil.Callee(w.info, in).(*types.Func); f2 != nil && f2.Pkg() != nil && f2.Pkg().Path() == "io" && f2.Name() == "LimitReader" {
+				return []Op{{Kind: "raw", Path: lhs, Pos: c.Pos()}}
+			}
+		}
+	}
 
 	// closure call
 	if id, ok := stripParens(c.Fun).(*ast.Ident); ok {
